@@ -21,7 +21,8 @@ try:
         p = subprocess.run([os.path.join(wt, "target/debug/abra"), "--standard-modules", os.path.join(wt, "modules"), demo],
                            capture_output=True, text=True, timeout=120)
         err = re.sub(r"thread 'main' \(\d+\)", "thread 'main'", p.stderr)
-        return p.returncode, p.stdout + ("\n[stderr] " + err.strip().split("\n")[0] if p.returncode not in (0,) and err.strip() else "")
+        err = err.replace(wt + "/", "").replace(src + "/", "")
+        return p.returncode, p.stdout + ("\n[stderr] " + err.strip()[:1200] if p.returncode not in (0,) and err.strip() else "")
     rc0, out0 = run_demo()
     res["demo_without_change"] = dict(exit=rc0, output=out0[-1500:] if out0 else out0)
     a = subprocess.run(["git", "apply", os.path.join(src, "patch.diff")], cwd=wt, capture_output=True, text=True)
